@@ -99,6 +99,9 @@ impl Caret {
         buf.reset_terminal();
         buf.layers[current_layer].clear();
         buf.stop_sixel_threads();
+        if buf.is_terminal_buffer {
+            buf.set_size(buf.terminal_state.get_size());
+        }
         self.pos = Position::default();
         self.set_is_visible(true);
         self.reset_color_attribute();
